@@ -18,7 +18,7 @@ is checked against the main loop's suspension points.
 """
 from irdb import AnalysisBroken
 import rleabs
-from rleabs import Lin, lin, TOP, Byte, Ptr, Fork, Violation, State, INF
+from rleabs import Lin, lin, TOP, Byte, Ptr, Fork, Violation, State, INF, Crc
 
 RULES = {
     'space': 'every store into the output buffer is at the fill cursor and within the space the caller offered',
@@ -30,6 +30,8 @@ RULES = {
     'runlen': 'ERR_RUNLEN is returned exactly when the input ends between the fourth equal byte and its count',
     'ok': 'OK is returned only when the input is exhausted, everything read has been interpreted, no repeat is '
           'outstanding and no count is owed; *buf_sz is the space really left',
+    'crc': 'the block CRC handed back (rle_crc at MORE, the inverted crc at OK) covers exactly the bytes stored, each '
+           'folded in with the CRC() step',
     'more': 'MORE is returned only with the buffer full; the saved resume state, pending byte / remaining count, run '
             'byte, chain position and input count describe exactly where the expander stands',
 }
@@ -93,6 +95,7 @@ class Unrle(rleabs.Engine):
         s.mem[('S', 'rle_avail')] = Lin(0, {'AV0': 1})
         s.mem[('S', 'rle_index')] = Link(0)
         s.mem[('S', 'tt')] = Ptr('TT', None)
+        s.mem[('S', 'rle_crc')] = Crc(0)
         s.mem[('P', self.szname)] = Lin(0, {'M0': 1})
         # what the fields hold when they carry nothing: some earlier byte, unrelated to everything
         s.mem[('S', 'rle_char')] = Byte('stale_c')
@@ -159,6 +162,12 @@ class Unrle(rleabs.Engine):
 
     # ------------------------------------------------------------------ canonical key
     def _canon_val(self, s, v, num):
+        if isinstance(v, Crc):
+            if v.n == 0 and v.st == 'v' and s.w > 1:
+                return ('c0',)
+            return ('c', v.n - s.w, v.st, num(v.b) if v.b is not None else None)
+        if isinstance(v, Ptr) and v.kind == 'G' and isinstance(v.off, tuple) and v.off[0] == 'crcidx':
+            return ('G', 'crcidx', v.off[1] - s.w, num(v.off[2]))
         if isinstance(v, Link):
             if v.j == 0 and s.gh['r'] > 1:
                 return ('L0',)          # the chain word the call started from (an anchor)
@@ -227,8 +236,10 @@ class Unrle(rleabs.Engine):
                             + (s.gh['r'] if q[1] == 'AV0' else 0) - (s.gh['r'] if q[2] == 'AV0' else 0), t)
                            for q, t in s.gh.get('rel', ())))
         vivs = tuple(sorted((repr(cs(sym)), iv) for sym, iv in s.iv.items() if sym.startswith('v:') or sym == 'RC0'))
+        lo = s.gh.get('lastout')
+        lok = (lo[0] - s.w, num(lo[1])) if lo is not None and lo[0] >= s.w - 1 else None
         return (blk, s.pred if self._has_phi(blk) else None, regs, mem, s.n, runc, tk, ivs, part, nes,
-                s.gh['mode'], s.gh['base'] + s.gh['r'] - s.acc, rel, vivs)
+                s.gh['mode'], s.gh['base'] + s.gh['r'] - s.acc, rel, vivs, lok)
 
     def gc(self, s, blk):
         keep = set()
@@ -291,6 +302,16 @@ class Unrle(rleabs.Engine):
         a, b = self.val(s, i.ops[0]), self.val(s, i.ops[1])
         if isinstance(a, Link) and i.op == 'lshr' and b == 8 and not a.sh:
             return Link(a.j, True)
+        if i.op == 'xor':
+            for x, y in ((a, b), (b, a)):
+                if isinstance(x, Crc) and x.st == 'shl' and isinstance(y, Crc) and y.st == 'tab' and x.n == y.n:
+                    # s = (s << 8) ^ crc_table[(s >> 24) ^ byte]: the byte must be the one just stored at position n
+                    lo = s.gh.get('lastout')
+                    if lo is not None and lo[0] == x.n and (lo[1] == y.b or s.eq(lo[1], y.b) is True):
+                        return Crc(x.n + 1)
+                    return TOP
+                if isinstance(x, Crc) and x.st == 'v' and isinstance(y, int) and (y & 0xFFFFFFFF) == 0xFFFFFFFF:
+                    return Crc(x.n, 'inv')
         if i.op in ('add', 'sub'):
             if isinstance(a, Byte) and isinstance(b, (int, Lin)):
                 a = self.num(s, a)
@@ -403,6 +424,8 @@ class Unrle(rleabs.Engine):
         if not ok:
             raise Violation('space', 'store without space')
         mode = s.gh['mode']
+        if isinstance(v, Byte):
+            s.gh['lastout'] = (s.w, v.id)
         if mode == 'rep':
             self.events['rep'].add(self.fn.loc(i))
             okr = isinstance(v, Byte) and s.eq(v.id, s.c) is True
@@ -465,6 +488,9 @@ class Unrle(rleabs.Engine):
                          if mode == 'count' and left0 and pend == 0 else
                          'OK returned in %s mode, %d byte(s) read and not interpreted, input left %s, repeat '
                          'outstanding %r' % (mode, pend, self._ivs(s, 'AV0', r), s.T)), s)
+            fin = s.mem.get(('S', 'crc'))
+            self.record('crc', i, isinstance(fin, Crc) and fin.st == 'inv' and fin.n == s.w,
+                        'ds->crc is set from %r, the bytes stored are [0,%d)' % (fin, s.w), s)
             want = s.norm(Lin(-s.w, {'M0': 1}))
             oks = isinstance(szn, (int, Lin)) and lin(szn).key() == lin(want).key()
             self.record('ok', i, oks, '*buf_sz left as %r, the space really left is %r' % (szn, want), s)
@@ -480,6 +506,9 @@ class Unrle(rleabs.Engine):
             ix = s.mem.get(('S', 'rle_index'))
             ch = s.mem.get(('S', 'rle_char'))
             pv = s.mem.get(('S', 'rle_prev'))
+            cr = s.mem.get(('S', 'rle_crc'))
+            self.record('crc', i, isinstance(cr, Crc) and cr.st == 'v' and cr.n == s.w,
+                        'rle_crc saved as %r, the bytes stored are [0,%d)' % (cr, s.w), s)
             okk = isinstance(k, int) and 0 <= k <= 5
             okav = isinstance(av, (int, Lin)) and lin(s.norm(lin(av))).key() == lin(s.norm(Lin(-r, {'AV0': 1}))).key()
             okix = isinstance(ix, Link) and ix.j == r and not ix.sh
